@@ -76,9 +76,12 @@ def run_check(prop, tier, seed, budget_s, n_runs, jobs):
     nontrivial_digests = set()
     samples = []
     viols = []
+    sets = {}
     for i in sorted(results):
         r = results[i]
         core.merge_counters(counters, r.get('counters', {}))
+        for name, items in (r.get('sets') or {}).items():
+            sets.setdefault(name, set()).update(items)
         d = r.get('digest')
         digests.add(d)
         if r.get('nontrivial'):
@@ -136,7 +139,7 @@ def run_check(prop, tier, seed, budget_s, n_runs, jobs):
         rec = {'property': prop, 'clause': v['clause'], 'seed': core.derive_seed(seed, prop, i), 'batch_seed': seed,
                'run_index': i, 'tier': tier, 'minimised': minimised, 'scenario': small,
                'expect': {'digest': rr.get('digest'), 'msg': vv[0]['msg']}}
-        path = core.write_replay(prop, rec['seed'], rec)
+        path = core.write_replay(prop, '%d-%d' % (rec['seed'], reported), rec)
         replay_paths.append(path)
         print('  %s: %s' % (v['clause'], vv[0]['msg']))
         print('VIOLATION property=%s replay=%s' % (prop, path))
@@ -160,6 +163,9 @@ def run_check(prop, tier, seed, budget_s, n_runs, jobs):
         'new_violation_runs': len(new),
         'jobs': jobs,
     }
+    for name, items in sets.items():
+        coverage['distinct_' + name] = len(items)
+        coverage[name + '_sample'] = sorted(items)[:40]
     if hasattr(mod, 'finish_coverage'):
         mod.finish_coverage(coverage, counters)
     core.write_evidence(prop, tier, seed, coverage, wall, len(new), mod.ASSUMPTIONS)
